@@ -1055,3 +1055,230 @@ func ruleOffloadProvenance(r *Run) {
 		o.OK("%d selector-matcher offload(s) from sel.Matchers, %d line-filter offload(s) from *LineFilter stages", nLabels, nLine).At(r.pos(fn.Pos()))
 	}
 }
+
+// ruleGetFloatKinds (CH-MAP): how a label value becomes the number a numeric label filter (or
+// unwrap) compares: text is parsed, an integer or a double converts directly and never fails.
+// A conversion error keeps the record (with __error__), so a conversion that fails for some
+// numbers lets records through that do not satisfy the filter.
+func ruleGetFloatKinds(r *Run) {
+	p := r.P
+	fn := p.Method(enginePkg, "LabelSet", "GetFloat")
+	o := r.Ob("CH-MAP", "logqlengine.(*LabelSet).GetFloat kinds", "a string label is parsed with ParseFloat; an integer or double label converts directly and never yields an error; other kinds are rejected")
+	if fn == nil {
+		o.Fail("-", "method not found")
+		return
+	}
+	T := p.NamedTypeByPath("go.opentelemetry.io/collector/pdata/pcommon", "ValueType")
+	if T == nil {
+		o.Undecide(r.pos(fn.Pos()), "pcommon.ValueType not loaded")
+		return
+	}
+	consts := enumConstants(T)
+	var tag ssa.Value
+	for _, c := range callsIn(fn) {
+		if call, ok := c.(*ssa.Call); ok {
+			if callee := staticCallee(call); callee != nil && callee.Name() == "Type" && strings.HasSuffix(pkgPathOf(callee), "/pdata/pcommon") {
+				tag = call
+			}
+		}
+	}
+	if tag == nil {
+		o.Undecide(r.pos(fn.Pos()), "no dispatch on the value's Type()")
+		return
+	}
+	var getOK ssa.Value
+	for _, c := range callsIn(fn) {
+		if call, ok := c.(*ssa.Call); ok {
+			if callee := staticCallee(call); callee != nil && cname(callee) == "Get" && isFirstParty(pkgPathOf(callee)) {
+				if refs := call.Referrers(); refs != nil {
+					for _, ref := range *refs {
+						if e, ok := ref.(*ssa.Extract); ok && e.Index == 1 {
+							getOK = e
+						}
+					}
+				}
+			}
+		}
+	}
+	extra := map[ssa.Value]constant.Value{}
+	if getOK != nil {
+		extra[getOK] = constant.MakeBool(true)
+	}
+	bad := false
+	seen := map[string]bool{}
+	for _, cr := range casesOf(fn, tag, consts, extra, nil) {
+		kind := ""
+		switch cr.Const {
+		case "ValueTypeStr":
+			kind = "str"
+		case "ValueTypeInt":
+			kind = "int"
+		case "ValueTypeDouble":
+			kind = "double"
+		case "<other>":
+			kind = "other"
+		default:
+			continue
+		}
+		seen[kind] = true
+		for _, e := range cr.Ends {
+			if e.Cut || len(e.Results) != 3 {
+				continue
+			}
+			val, okv, errv := e.Results[0], e.Results[1], e.Results[2]
+			switch kind {
+			case "int", "double":
+				if !isNilConst(errv.V) && !(errv.Known && errv.C == nil) {
+					bad = true
+					o.Fail(r.pos(e.Term.Pos()), "%s: the conversion can fail (%s): a numeric label that fails to convert keeps its record whatever the filter says", cr.Const, describe(errv.V, 0))
+					continue
+				}
+				if !okv.Known || !constant.BoolVal(okv.C) {
+					bad = true
+					o.Fail(r.pos(e.Term.Pos()), "%s: the label is reported as absent", cr.Const)
+					continue
+				}
+				want := map[string]string{"int": "Int", "double": "Double"}[kind]
+				src := stripConv(val.V)
+				call, ok := src.(*ssa.Call)
+				if !ok || staticCallee(call) == nil || staticCallee(call).Name() != want {
+					bad = true
+					o.Fail(r.pos(e.Term.Pos()), "%s: the number is %s, not the value's %s()", cr.Const, describe(val.V, 0), want)
+				}
+			case "str":
+				c, idx, ok := extractOf(val.V)
+				if !ok || idx != 0 || !callIs(c, "strconv", "ParseFloat") {
+					bad = true
+					o.Fail(r.pos(e.Term.Pos()), "%s: the number is %s, not strconv.ParseFloat of the text", cr.Const, describe(val.V, 0))
+				}
+			case "other":
+				if isErr, known := endReturnsError(e); !known || !isErr {
+					bad = true
+					o.Fail(r.pos(e.Term.Pos()), "a value that is neither text nor a number converts without error")
+				}
+			}
+		}
+	}
+	for _, k := range []string{"str", "int", "double", "other"} {
+		if !seen[k] {
+			bad = true
+			o.Fail(r.pos(fn.Pos()), "case %s not evaluated", k)
+		}
+	}
+	if !bad {
+		o.OK("Str -> ParseFloat; Int -> float64(Int()), nil; Double -> Double(), nil; others rejected").At(r.pos(fn.Pos()))
+	}
+}
+
+// ruleJSONPathStateFresh (PV-FRESH): the JSON path extractor keeps the path of the value it is
+// at in a stack. Every document is walked from an empty stack: the root call of walk is made on
+// an extractor built in that very call (current: make(Path, 0, n)), or the stack is truncated
+// right before. A reused extractor whose last walk stopped on a parse error would otherwise
+// start the next line in the middle of the previous one.
+func ruleJSONPathStateFresh(r *Run) {
+	p := r.P
+	walk := p.Method(jsonexprPkg, "extractor", "walk")
+	o := r.Ob("PV-FRESH", "jsonexpr.extractor path stack", "every document is walked from an empty path stack: the extractor is built for the call, or its stack is reset before the walk")
+	if walk == nil {
+		o.Fail("-", "jsonexpr.extractor.walk not found")
+		return
+	}
+	recvT := namedOf(derefType(walk.Signature.Recv().Type()))
+	n := 0
+	bad := false
+	for _, fn := range p.SrcFuncs() {
+		if !isFirstParty(pkgPathOf(fn)) {
+			continue
+		}
+		// methods of the extractor itself recurse with the stack in use
+		if fn.Signature.Recv() != nil {
+			if rn := namedOf(derefType(fn.Signature.Recv().Type())); rn != nil && recvT != nil && rn.Obj() == recvT.Obj() {
+				continue
+			}
+		}
+		if fn.Parent() != nil {
+			if pr := fn.Parent(); pr.Signature.Recv() != nil {
+				if rn := namedOf(derefType(pr.Signature.Recv().Type())); rn != nil && recvT != nil && rn.Obj() == recvT.Obj() {
+					continue
+				}
+			}
+		}
+		for _, c := range callsIn(fn) {
+			if staticCallee(c) != walk {
+				continue
+			}
+			n++
+			recv := c.Common().Args[0]
+			fresh := false
+			if al, ok := recv.(*ssa.Alloc); ok {
+				// composite literal in this function: current is nil or make(Path, 0, n)
+				fresh = true
+				for _, ref := range *al.Referrers() {
+					fa, ok := ref.(*ssa.FieldAddr)
+					if !ok {
+						continue
+					}
+					if name, _, _ := fieldNameOf(fa); name != "current" {
+						continue
+					}
+					for _, st := range storesTo(fa) {
+						switch x := st.Val.(type) {
+						case *ssa.MakeSlice:
+							if k, ok := constInt(x.Len); !ok || k != 0 {
+								fresh = false
+							}
+						case *ssa.Const:
+							if x.Value != nil {
+								fresh = false
+							}
+						case *ssa.Slice:
+							if k, ok := constInt(x.High); !(ok && k == 0 && x.Low == nil) {
+								fresh = false
+							}
+						default:
+							fresh = false
+						}
+					}
+				}
+			}
+			if !fresh {
+				// a reset that dominates the walk: recv.current = recv.current[:0] (or nil)
+				allInstrs(fn, func(in ssa.Instruction) {
+					st, ok := in.(*ssa.Store)
+					if !ok || !instrDominates(st, c) {
+						return
+					}
+					name, base, ok := fieldNameOf(st.Addr)
+					if !ok || name != "current" || !(base == recv || describe(base, 0) == describe(recv, 0)) {
+						return
+					}
+					switch x := st.Val.(type) {
+					case *ssa.Slice:
+						if k, ok := constInt(x.High); ok && k == 0 && x.Low == nil {
+							fresh = true
+						}
+					case *ssa.Const:
+						if x.Value == nil {
+							fresh = true
+						}
+					case *ssa.MakeSlice:
+						if k, ok := constInt(x.Len); ok && k == 0 {
+							fresh = true
+						}
+					}
+				})
+			}
+			if !fresh {
+				bad = true
+				o.Fail(r.pos(c.Pos()), "%s walks a document with an extractor that was not built for this call and whose path stack is not reset: after a line that failed to parse the stack still holds that line's path", shortFuncName(fn))
+			}
+		}
+	}
+	if n == 0 {
+		o.Fail(r.pos(walk.Pos()), "no root call of walk found")
+		return
+	}
+	if !bad {
+		o.OK("%d root walk(s), each on a freshly built extractor or after a reset", n)
+	}
+}
